@@ -6,18 +6,12 @@ use crate::vm::vector::Vector;
 use crate::vm::environment::LexicalEnvironment;
 use crate::{vector_view, env_view};
 /// heap cells a continuation refers to: whatever the slots of its saved stack refer to, the code object of its saved instruction
-/// pointer and its saved environment.  Continuation is opaque (private fields, derives over a tuple): its getters are assumed to
-/// return these views (one-line field reads)
+/// pointer and its saved environment (views and getters: unit `continuation`, verified, same group)
 use crate::vm::stack::Stack;
 use vstd::std_specs::iter::IteratorSpec;
-pub uninterp spec fn cont_stack(c: Continuation) -> Stack;
-pub uninterp spec fn cont_ip(c: Continuation) -> (usize, usize);
-pub uninterp spec fn cont_ep(c: Continuation) -> usize;
-pub assume_specification [Continuation::stack] (c: &Continuation) -> (r: &Stack) ensures *r == cont_stack(*c);
-pub assume_specification [Continuation::ip] (c: &Continuation) -> (r: &(usize, usize)) ensures *r == cont_ip(*c);
-pub assume_specification [Continuation::ep] (c: &Continuation) -> (r: usize) ensures r == cont_ep(*c);
+use crate::vm::continuation::{cont_stack, cont_regs};
 pub open spec fn cont_kid(c: Continuation, k: int) -> bool {
-    seq_kid(cont_stack(c).cells(), k) || k == cont_ip(c).0 || k == cont_ep(c)
+    seq_kid(cont_stack(c).cells(), k) || k == cont_regs(c).1.0 || k == cont_regs(c).0
 }
 /// a code object refers to whatever its bytecode cells, its formal-argument cells and the symbols of its environment map refer to
 pub uninterp spec fn envmap_view(m: crate::vm::environment::EnvironmentMap) -> Seq<(VCell, crate::vm::environment::BindingSource)>;
